@@ -13,9 +13,9 @@ CONSTANTS
   ZDCode = {30309,120703,3003705}
   Delivery = "by_prior"
   Passes = "second_blind"
-  QNum = {9,14}
+  QNum = {8,14}
   QShift = 12
-  QDen = {1,4}
+  QDen = {4}
   ENum = {6,12,14}
   EShift = 12
   SNum = {3}
